@@ -195,10 +195,116 @@ def check_propka_ffout(ctx, rng):
     return None if pr is None else (pr[0], pr[1], text, ff, base, opt)
 
 
+# ---- rigidly translated copies: coordinates that fill their fixed-width columns
+# A formatting option must leave the numbers alone for every structure, also one whose coordinates
+# occupy all 8 columns of a field ("-142.302": no blank left in front of it) or 7 of them ("142.302").
+# Deposited structures near the origin never do; large assemblies and translated coordinates do.
+# Widths stay inside what the fixed-column format carries (-1000 < v < 1000 -> at most 8 characters).
+WIDTH_PATTERNS = [
+    {"x": "neg8"},
+    {"y": "neg8"},
+    {"z": "neg8"},
+    {"x": "neg8", "y": "neg8", "z": "neg8"},
+    {"x": "pos7"},
+    {"y": "pos7"},
+    {"z": "pos7"},
+    {"x": "pos7", "y": "pos7", "z": "pos7"},
+    None,  # drawn per axis
+]
+_COLS = {"x": (30, 38), "y": (38, 46), "z": (46, 54)}
+_MARGIN = 6.0  # added hydrogens / debumping moves stay well inside the target interval
+
+
+def width_pattern(rng, i):
+    p = WIDTH_PATTERNS[i % len(WIDTH_PATTERNS)]
+    if p is None:
+        while True:
+            p = {ax: k for ax in "xyz" for k in [rng.choice(["neg8", "pos7", "plain"])] if k != "plain"}
+            if p:
+                break
+    return p
+
+
+def translate_pdb(rng, text, pattern):
+    """the same PDB file rigidly translated so that every atom's coordinate along the axes named in
+    `pattern` lies in (-1000, -100) ("neg8": 8 characters with the sign) or [100, 1000) ("pos7");
+    returns (text, translation) or None when the structure is wider than the interval"""
+    lines = text.splitlines()
+    atoms = [l for l in lines if l.startswith(("ATOM", "HETATM"))]
+    t = {}
+    for ax in "xyz":
+        kind = pattern.get(ax)
+        if kind is None:
+            t[ax] = 0.0
+            continue
+        a, b = _COLS[ax]
+        vals = [float(l[a:b]) for l in atoms]
+        lo, hi = min(vals), max(vals)
+        if kind == "neg8":
+            tmin, tmax = -1000.0 + _MARGIN - lo, -100.0 - _MARGIN - hi
+        else:
+            tmin, tmax = 100.0 + _MARGIN - lo, 1000.0 - _MARGIN - hi
+        if tmin > tmax:
+            return None
+        where = rng.choice(["near-100", "near-1000", "anywhere", "anywhere"])
+        near0 = tmax if kind == "neg8" else tmin  # the end of the interval next to +-100
+        far0 = tmin if kind == "neg8" else tmax
+        v = near0 if where == "near-100" else far0 if where == "near-1000" else rng.uniform(tmin, tmax)
+        t[ax] = round(v, 3)
+    out = []
+    for l in lines:
+        if l.startswith(("ATOM", "HETATM")):
+            l = l.ljust(54)
+            f = "".join(f"{float(l[a:b]) + t[ax]:8.3f}" for ax, (a, b) in _COLS.items())
+            assert len(f) == 24, f
+            l = l[:30] + f + l[54:]
+        out.append(l)
+    return "\n".join(out) + "\n", t
+
+
+def input_widths(text):
+    """{axis: set of printed widths of that coordinate over the atoms of the input file}"""
+    w = {ax: set() for ax in "xyz"}
+    for l in text.splitlines():
+        if l.startswith(("ATOM", "HETATM")):
+            for ax, (a, b) in _COLS.items():
+                w[ax].add(len(l[a:b].strip()))
+    return w
+
+
+def check_translated(ctx, rng, i, seen):
+    text, ff, base = gen_case(rng)
+    pattern = width_pattern(rng, i)
+    tr = translate_pdb(rng, text, pattern)
+    name = ",".join(f"{ax}:{pattern[ax]}" for ax in "xyz" if ax in pattern)
+    if tr is None:
+        ctx.count("translated copies: field widths", "structure wider than the interval (skipped)")
+        return
+    ttext, t = tr
+    w = input_widths(ttext)
+    for ax in "xyz":
+        want = {"neg8": {8}, "pos7": {7}}.get(pattern.get(ax))
+        assert want is None or w[ax] == want, (ax, pattern, w)
+        ctx.count("translated copies: input " + ax + " width (characters)", max(w[ax]))
+    ctx.count("translated copies: field widths", name)
+    for opt in FORMAT_OPTS:
+        pr = compare(ctx, ttext, ff, base, opt)
+        ctx.distinct.add((opt.split("=")[0], ff, tuple(sorted(o.split("=")[0] for o in base)), name))
+        ctx.count("translated copies: toggled", opt.split("=")[0])
+        ctx.count("translated copies: oracle", "holds" if pr is None else pr[0])
+        if pr is not None:
+            sig = {"option": opt.split("=")[0], "column": pr[0]}
+            k = tuple(sig.items())
+            if k not in seen:
+                seen.add(k)
+                ctx.violate(sig, pr[1] + f" (input rigidly translated by {t}: {name})", {"pdb": ttext, "ff": ff, "base": base, "option": opt, "translation": t, "field_widths": name})
+
+
 def run(ctx: Ctx):
     rng = ctx.rng
     ctx.extra["rule"] = (
         "peptide windows (every residue type forced in turn, pre-named states, two chains, waters) x force field x random base option subsets; each formatting option toggled on its own against the same base; "
+        "the same on rigidly translated copies whose x, y, z (each alone, all three, mixed) fill all 8 columns of their field with a minus sign (-1000 < v < -100) or 7 of them (100 <= v < 1000); "
         "PROPKA-driven runs at pH 1/2.5/11/13.5 with and without --ffout=<another force field> and the other formatting options; --drop-water against hand-deleted waters; --neutraln/--neutralc against the plain PARSE run; a case is (option toggled, force field, base option set); distinct counts distinct tuples"
     )
     seen = set()
@@ -244,6 +350,9 @@ def run(ctx: Ctx):
             if tuple(sig.items()) not in seen:
                 seen.add(tuple(sig.items()))
                 ctx.violate(sig, pr[1], {"pdb": pr[2], "ff": "PARSE", "base": [], "option": "neutral"})
+    # last, so that the streams above draw the same inputs per seed as before
+    for ci in range(ctx.scale(len(WIDTH_PATTERNS), 30 * len(WIDTH_PATTERNS))):
+        check_translated(ctx, rng, ci, seen)
 
 
 def replay(ctx: Ctx, data: dict) -> bool:
